@@ -27,6 +27,7 @@ var (
 	flagVerbose = flag.Bool("v", false, "verbose")
 	flagNoEvid  = flag.Bool("no-evidence", false, "do not write the evidence file")
 	flagList    = flag.Bool("list", false, "list contracts and exit")
+	flagReplayDir = flag.String("replaydir", "", "directory for replay files (default <verif>/replay)")
 	flagTimeout = flag.Int("timeout", 0, "per-obligation solver timeout in ms (default: 10000 quick, 60000 thorough)")
 )
 
@@ -227,7 +228,7 @@ func run() int {
 			}
 		}
 		allPaths = append(allPaths, ex.paths...)
-		if *flagFn == "" {
+		if false {
 			for u := range ex.usedContracts {
 				if !queued[u] {
 					if cc := db.Contracts[u]; cc != nil && !cc.Trusted {
